@@ -50,7 +50,13 @@ facts = c06_facts.facts
 
 METHODS_STAT = ["name", "ppid", "status", "cpu_times", "create_time", "cpu_num", "terminal"]
 METHODS_STATUS = ["uids", "gids", "num_threads", "num_ctx_switches"]
-TOL = Fraction(1, 10 ** 12)
+# Unit round-off of binary64. The model computes exact rationals; the code computes doubles:
+#   cpu_times / threads: float(token) / CLOCK_TICKS   = 2 correctly rounded operations → relative error <= 2u + u^2
+#   create_time:         float(token) / CLOCK_TICKS + bt = 3 (bt is a whole number < 2^53, exact) → <= 3u + 3u^2 + u^3
+# (theorems C06_tick_quotient_rounding_bound / C06_create_time_rounding_bound). Nothing looser is accepted.
+U = Fraction(1, 2 ** 53)
+TOL2 = 2 * U + U * U
+TOL3 = 3 * U + 3 * U * U + U ** 3
 
 
 def get_ps(ctx):
@@ -125,6 +131,42 @@ def gen_comm(rng):
     else:
         out = bytes(rng.choice([rng.randrange(1, 256), 41, 40, 32, 10]) for _ in range(n))
     return out.replace(b"\x00", b"\x01")[:15]
+
+
+UNRELATED = [b"/usr/bin/python3", b"/sbin/init", b"bash", b"-bash", b"/opt/x/bin/java", b"python3.12", b"sh", b""]
+
+
+def gen_cmdline(rng, comm):
+    """argv of the process as {"dir", "base", "rest"} (hex; argv[0] = dir + '/' + base) or None = empty cmdline file.
+    Derived from the comm so that the front end's rule for truncated names (psutil/__init__.py name(): a comm of
+    >= 15 bytes is replaced by basename(argv[0]) when that starts with it) is met, narrowly missed, and — for names
+    SHORTER than 15 bytes — offered an argv[0] that starts with the comm although the rule must not apply.
+    Stays inside what cmdline() parses unambiguously (C12's business): NUL-terminated arguments, no NUL/CR, and no
+    blank in a single-argument command line."""
+    if rng.random() < 0.35:
+        return None
+    usable = all(c not in comm for c in (0, 13, 47)) and len(comm) > 0
+    r = rng.random()
+    d = rng.choice([None, b"/usr/bin", b"/usr/libexec/x", b".", b"", b"/opt/my app/bin"])
+    if usable and r < 0.40:
+        base = comm + rng.choice([b"aemon", b"-daemon", b"x", b" --flag", b"\xc3\xa9", b"0"])      # extends the comm
+    elif usable and r < 0.50:
+        base = comm                                                                              # is the comm
+    elif usable and r < 0.65:
+        base = comm[:-1] + bytes([comm[-1] ^ 1]) + b"daemon"                                     # differs in the last byte
+        if 47 in base or 0 in base or 13 in base:
+            base = b"x" + comm
+    elif usable and r < 0.72:
+        d, base = (d or b"") + b"/" + comm + b"daemon", rng.choice([b"run", b"", b"x" + comm])     # only the DIRECTORY starts with it
+    elif usable and r < 0.78:
+        base = comm[:max(1, len(comm) - 3)]                                                      # a proper prefix of the comm
+    else:
+        arg0 = rng.choice(UNRELATED)
+        d, _, base = arg0.rpartition(b"/") if b"/" in arg0 else (None, b"", arg0)
+    rest = [rng.choice([b"--start", b"-c", b"a b", b"", b"\xff"]) for _ in range(rng.choice([0, 0, 1, 2]))]
+    if not rest and b" " in ((d or b"") + base):
+        rest = [b"--x"]
+    return {"dir": None if d is None else d.hex(), "base": base.hex(), "rest": [x.hex() for x in rest]}
 
 
 def gen_counter(rng, style):
@@ -221,8 +263,12 @@ def gen_dev(rng, want=()):
         r = rng.random()
         if r < 0.12:
             out.append([nm.encode().hex(), "vanished", 0])
-        elif r < 0.18:
-            out.append([nm.encode().hex(), "other", rng.choice([0, 0, 0, 2049])])   # regular file/dir: st_rdev 0; block dev
+        elif r < 0.22:
+            # NOT a character device: regular file / directory / fifo / socket (st_rdev 0 = the tty_nr of every process
+            # without a terminal), or a BLOCK device, whose number may coincide with a tty number somebody has
+            kind = rng.choice(["reg", "dir", "dir", "blk", "blk", "fifo", "sock"])
+            rdev = 0 if kind != "blk" else rng.choice(list(want) + [2049, 1025, 34816, rng.choice(nums)])
+            out.append([nm.encode().hex(), kind, rdev])
         else:
             nr = rng.choice(nums)
             if nr in used and rng.random() < 0.8:
@@ -397,6 +443,9 @@ def gen_case(rng, family):
     case = separate_main_thread(
         {"family": family, "pid": pid, "tck": tck, "btime": btime, "tmap": tmap, "stat": {"rec": stat},
          "status": {"rec": status}, "threads": tid_order(threads)}, rng)
+    cl = gen_cmdline(rng, comm_b)
+    if cl is not None:
+        case["cmdline"] = cl
     return add_world(case, rng)
 
 
@@ -505,6 +554,26 @@ def corpus_cases():
         c["status"]["rec"]["uid"] = [1234] * 4
         c["status"]["rec"]["gid"] = [1234] * 4
         out.append(c)
+    # the public name(): the documented example, a near miss, a short name whose argv[0] starts with it, a 15-byte name
+    # with an unrelated argv[0]
+    for comm, d, b in ((b"gnome-keyring-d", b"/usr/bin", b"gnome-keyring-daemon"), (b"gnome-keyring-d", b"/usr/bin", b"gnome-keyring-Daemon"[:14] + b"X"),
+                       (b"cat", b"/usr/bin", b"catalog"), (b"123456789012345", b"/usr/bin", b"python3"),
+                       (b"kworker/u16:3-e", None, b"kworker")):
+        c = gen_case(rng, "mixed")
+        c["family"] = "corpus"
+        c["stat"]["rec"]["comm"] = comm.hex()
+        c["status"]["rec"]["comm"] = comm.hex()
+        c["cmdline"] = {"dir": None if d is None else d.hex(), "base": b.hex(), "rest": [b"--start".hex()]}
+        out.append(c)
+    # /dev entries that are NOT character devices: a directory /dev/ttydir (st_rdev 0) for a daemon (tty_nr 0), and a block
+    # device whose number equals the tty_nr
+    for kind, rdev, tty in (("dir", 0, 0), ("blk", 34816, 34816), ("fifo", 0, 0)):
+        c = gen_case(rng, "mixed")
+        c["family"] = "corpus"
+        c["stat"]["rec"]["f"][3] = tty
+        c["dev"] = [[b"/dev/tty1".hex(), "chr", 1025], [b"/dev/ttydir".hex(), kind, rdev]]
+        c.pop("dev2", None)
+        out.append(c)
     # regression (fixed 9df9f82): a regular file /dev/tty.log (st_rdev 0) must not become the terminal of a daemon (tty_nr 0)
     c = gen_case(rng, "mixed")
     c["family"] = "corpus"
@@ -529,7 +598,7 @@ class _FakeStat:
     """what get_terminal_map may look at in an os.stat() result"""
     def __init__(self, kind, rdev):
         self.st_rdev = rdev
-        self.st_mode = (0o020620 if kind == "chr" else 0o100644)
+        self.st_mode = {"chr": 0o020620, "dir": 0o040755, "blk": 0o060660, "fifo": 0o010644, "sock": 0o140755}.get(kind, 0o100644)
         self.st_ino, self.st_dev, self.st_nlink, self.st_uid, self.st_gid, self.st_size = 1, 5, 1, 0, 0, 0
 
 
@@ -555,7 +624,10 @@ class _DevWorld:
             path = bytes.fromhex(hx).decode()
             self.entries[path] = (kind, rdev)
             self.order.append(path)
-            open(self.root + path, "wb").close()
+            if kind == "dir":
+                os.makedirs(self.root + path, exist_ok=True)     # glob lists directories too
+            else:
+                open(self.root + path, "wb").close()
 
     def glob(self, pattern, **kw):
         self.glob_calls.append(pattern)
@@ -610,6 +682,9 @@ class Impl:
         self.plat = self.ps._pslinux
         self.fp = fakeproc.FakeProc(self.ps, prefix="psv-c06-")
         self.saved_tck = self.plat.CLOCK_TICKS
+        rhs = c06_facts.clock_ticks_rhs(c06_facts.extract.parse_module(ctx.snap, "_pslinux.py"))
+        import ast as _ast
+        self.tck_code = None if rhs is None else compile(_ast.Expression(rhs), "<CLOCK_TICKS>", "eval")
         self.dev = _DevWorld()
         self.task_dir = None       # path whose os.listdir answer is scripted
         self.task_listing = None
@@ -623,6 +698,26 @@ class Impl:
         posix.glob = _Shim(_real_glob, glob=self.dev.glob)
         posix.os = _Shim(os, stat=self.dev.stat)
         self.plat.os = _Shim(os, listdir=self._listdir, stat=self._stat, path=_Shim(os.path, exists=self._exists))
+
+    def world_clock_ticks(self, case):
+        """CLOCK_TICKS as the module's OWN defining expression gives it in the world of the case: the right-hand side of
+        `CLOCK_TICKS = …` (from the snapshot's source) is evaluated in the module's namespace with an `os` whose
+        sysconf('SC_CLK_TCK') answers the case's tick rate. A constant there (`= 100`) shows on every other rate.
+        `tck_own`: the value the module computed at import on this machine is left in place."""
+        if case.get("tck_own"):
+            return self.saved_tck
+        if self.tck_code is None:
+            return case["tck"]
+        tck = case["tck"]
+
+        def sysconf(name):
+            return tck if name in ("SC_CLK_TCK", os.sysconf_names.get("SC_CLK_TCK")) else os.sysconf(name)
+        ns = dict(vars(self.plat))
+        ns["os"] = _Shim(os, sysconf=sysconf)
+        try:
+            return eval(self.tck_code, ns)          # noqa: S307 — the module's own expression, from the snapshot
+        except Exception:  # noqa: BLE001 — an expression that cannot be evaluated in isolation: the module's own value
+            return self.saved_tck
 
     def _open_binary(self, fname, *a, **kw):
         how = self.esrch.get(fname)
@@ -662,7 +757,7 @@ class Impl:
         pid = case["pid"]
         fp.clear()
         fakeproc.reset_psutil_state(ps)
-        self.plat.CLOCK_TICKS = case["tck"]
+        self.plat.CLOCK_TICKS = self.world_clock_ticks(case)
         dev = case["dev"] if "dev" in case else [[p, "chr", nr] for nr, p in case["tmap"]]
         self.dev.set(dev)
         self.task_dir = self.gone_path = None
@@ -677,7 +772,7 @@ class Impl:
         # case's record is malformed, then swap the file in.
         sane = b"%d (x) S 1 1 1 0 -1 0 0 0 0 0 0 0 0 0 20 0 1 0 5 0 0 0 0 0 0 0 0 0 0 0 0 0 0 0 17 0 0 0 0 0 0\n" % pid
         fp.write(d + "stat", stat if well_formed else sane)
-        fp.write(d + "cmdline", b"")
+        fp.write(d + "cmdline", bytes.fromhex(files.get("cmdline") or ""))
         if files.get("status") is not None:
             fp.write(d + "status", bytes.fromhex(files["status"]))
         fp.mkdir(d + "task")
@@ -715,6 +810,8 @@ class Impl:
         # (1) plain calls, one after the other
         for m in order:
             out[m] = fakeproc.outcome(getter(m))
+        # the PLATFORM name(): the kernel-name clause itself, below the front end's cmdline rule for 15-byte names
+        out["proc_name"] = fakeproc.outcome(p._proc.name)
         # (2) the same getters inside ONE oneshot() block: every getter after the first runs on warm caches
         #     (memoised stat/status parses, cached cpu_times/ppid/uids); threads() and the status getters come
         #     after seven stat getters, and threads()/cpu_times()/uids() are asked a second time at the end.
@@ -729,6 +826,7 @@ class Impl:
                     out["oneshot2:" + m] = fakeproc.outcome(getter(m))
                 # the front end answers create_time() from Process._create_time: ask the platform method itself,
                 # which inside oneshot() computes from the memoised stat parse + the pinned BOOT_TIME
+                out["oneshot_proc:proc_name"] = fakeproc.outcome(p._proc.name)
                 if well_formed:
                     out["oneshot_proc:create_time"] = fakeproc.outcome(p._proc.create_time)
                     out["oneshot_proc:ppid"] = fakeproc.outcome(p._proc.ppid)
@@ -779,6 +877,8 @@ class Impl:
             fp.write("stat", bytes.fromhex(files["procstat2"]))
             q = fakeproc.outcome(ps.Process, pid)
             out["create_time_pinned"] = fakeproc.outcome(q["value"].create_time) if q["kind"] == "ok" else q
+            # … and the public boot_time() after it: not cached, re-reads /proc/stat (C06_time_call_history)
+            out["boot_time_now"] = fakeproc.outcome(ps.boot_time)
         # (6) /dev changes after get_terminal_map() was memoised
         if "dev2" in case and well_formed:
             self.dev.set(case["dev2"])
@@ -786,7 +886,8 @@ class Impl:
         return out
 
 
-BASE_METHOD = {"terminal_stale": "terminal", "create_time_pinned": "create_time"}
+BASE_METHOD = {"terminal_stale": "terminal", "create_time_pinned": "create_time", "proc_name": "name",
+               "boot_time_now": "boot_time"}
 
 
 def canon_impl(m, o):
@@ -804,7 +905,7 @@ def canon_impl(m, o):
             return {"ok": str(v)}
         if m == "cpu_times":
             return {"ok": [float(getattr(v, k)) for k in ("user", "system", "children_user", "children_system", "iowait")]}
-        if m == "create_time":
+        if m in ("create_time", "boot_time"):
             return {"ok": float(v)}
         if m == "terminal":
             return {"ok": None if v is None else os.fsencode(v).hex()}
@@ -819,12 +920,12 @@ def canon_impl(m, o):
     return {"ok": repr(v)}
 
 
-def close(f, q):
-    """double `f` vs exact rational q = [num, den]"""
+def close(f, q, tol=TOL2):
+    """double `f` vs exact rational q = [num, den]: within the rounding bound of the operations the code performs"""
     if not isinstance(f, float) or f != f or f in (float("inf"), float("-inf")):
         return False
     exact = Fraction(q[0], q[1])
-    return abs(Fraction(f) - exact) <= TOL * abs(exact)
+    return abs(Fraction(f) - exact) <= tol * abs(exact)
 
 
 def agrees(m, impl, exp):
@@ -845,7 +946,9 @@ def agrees(m, impl, exp):
     if m == "cpu_times":
         return isinstance(a, list) and len(a) == 5 and all(close(x, q) for x, q in zip(a, b))
     if m == "create_time":
-        return close(a, b)
+        return close(a, b, TOL3)
+    if m == "boot_time":
+        return close(a, b, U)
     if m == "threads":
         if not isinstance(a, list) or len(a) != len(b):
             return False
@@ -865,7 +968,7 @@ def line_of(case):
     fix_listing(case)
     d = {"op": "proc", "tck": case["tck"], "btime": case["btime"], "tmap": case["tmap"], "stat": case["stat"],
          "status": case.get("status"), "threads": case["threads"]}
-    for k in ("dev", "dev2", "procstat", "procstat2", "listing", "alive"):
+    for k in ("dev", "dev2", "procstat", "procstat2", "listing", "alive", "cmdline"):
         if k in case:
             d[k] = case[k]
     return d
@@ -984,6 +1087,21 @@ def case_features(case):
                 f.add("thread-" + ft)
     if case.get("malformed_kind"):
         f.add("malformed:" + case["malformed_kind"])
+    cl = case.get("cmdline")
+    f.add("cmdline:present" if cl else "cmdline:empty")
+    if cl and pcomm is not None:
+        base = bytes.fromhex(cl["base"])
+        if len(pcomm) >= 15:
+            f.add("name15:argv0-" + ("is-the-comm" if base == pcomm else "extends-the-comm" if base.startswith(pcomm)
+                                     else "near-miss" if base[:14] == pcomm[:14] else "other"))
+        elif pcomm and base.startswith(pcomm):
+            f.add("name<15:argv0-starts-with-the-comm")
+    elif pcomm is not None and len(pcomm) >= 15:
+        f.add("name15:no-cmdline")
+    if case.get("tck_own"):
+        f.add("tck:module-own-value")
+    else:
+        f.add("tck:%s" % case["tck"])
     return f
 
 
@@ -1049,6 +1167,10 @@ def exhaustive_cases():
     for cm in rel:
         c = dict(base, stat={"rec": dict(base["stat"]["rec"], comm=cm.hex())},
                  status={"rec": dict(base["status"]["rec"], comm=cm.hex())}, threads=main, iter_modes=False)
+        c.pop("cmdline", None)
+        cl = gen_cmdline(rng, cm)            # 15-byte names: the front end consults argv[0]
+        if cl is not None:
+            c["cmdline"] = cl
         out.append(c)
     # THREAD names (the comm of a thread is its own: prctl(PR_SET_NAME) / pthread_setname_np act on one task): every
     # comm of length <= 3 over the alphabet, and every `x) yz` around the sequence that ends the name field, as names
@@ -1110,6 +1232,13 @@ def correspond(ctx, res):
                     "contains a parenthesis/blank/newline/CR/backslash/non-UTF-8 byte or imitates a status line, or a "
                     "counter >= 2^31, or the record is an old-kernel or malformed one; distinct = distinct rendered files")
         live = validate_renderers(ctx, res)
+        # the anchor CLOCK_TICKS: the module's own value (computed at import, before anything is patched) is the system's
+        own, sysv = impl.saved_tck, os.sysconf("SC_CLK_TCK")
+        res.count("clock-ticks:module-value-%s-sysconf" % ("equals" if own == sysv else "DIFFERS-FROM"))
+        if own != sysv:
+            res.disagree("spec", {"observation": "psutil._pslinux.CLOCK_TICKS", "source": "module constant"},
+                         {"ok": own}, None, {"ok": sysv},
+                         note="CLOCK_TICKS of the imported module is not os.sysconf('SC_CLK_TCK') of this system")
         cases = corpus_cases() + live_cases(live)
         n = ctx.n(1600, 24000)
         n_mal = max(50, n // 8)
@@ -1388,6 +1517,10 @@ def live_cases(live):
         c["threads"] = tid_order([{"rec": dict(rec)}] + [{"rec": dict(t)} for t in trecs if t["pid"] != rec["pid"]])
         c["listing"] = sorted((tid_of(t) for t in c["threads"]), reverse=True)
         c.pop("alive", None)
+        # these run with the value the module itself computed for CLOCK_TICKS at import; the model is told the
+        # system's tick rate, asked from the OS here
+        c["tck"] = os.sysconf("SC_CLK_TCK")
+        c["tck_own"] = True
         out.append(c)
     return out
 
